@@ -1,4 +1,5 @@
 import CalmVerif.Props.C07
+import CalmVerif.Props.C07kw
 open CalmVerif.Props.C07
 
 #print axioms generated_not_reserved
@@ -79,3 +80,9 @@ open CalmVerif.Props.C07
 #check @label_program_facts
 #print axioms binding_preserved_of_walk_facts_partial
 #check @binding_preserved_of_walk_facts_partial
+#print axioms CalmVerif.Props.C07kw.obfuscator_reserved_list_is_lexer_keywords
+#check @CalmVerif.Props.C07kw.obfuscator_reserved_list_is_lexer_keywords
+#print axioms CalmVerif.Props.C07kw.lexer_keywords_are_es5_reserved_words
+#check @CalmVerif.Props.C07kw.lexer_keywords_are_es5_reserved_words
+#print axioms CalmVerif.Props.C07kw.rules_obfuscate_default_list_is_empty
+#check @CalmVerif.Props.C07kw.rules_obfuscate_default_list_is_empty
